@@ -90,6 +90,15 @@ func (Area) Gen(r *rand.Rand, tier string, emit func(string)) {
 					emit(c01.Line(cs, ss, true, true, at%2 == 1, "b", append(clone(ir[:len(ir)-1]), "B"), is, st, ow, []string{"e9"}, fmt.Sprintf("%s@%d", kind, at), 7333))
 				}
 			}
+			// unary request whose Send fails: cancellation while the explicit outgoing.Close() of forwardUnaryRequest
+			// is pending (program point uCloseErr) and around it
+			if !cs {
+				for at := 0; at < 9; at++ {
+					for _, kind := range []string{"c", "d"} {
+						emit(c01.Line(cs, ss, true, true, at%2 == 1, "b", ir, is, st, []string{"e64"}, or, fmt.Sprintf("%s@%d", kind, at), 7444))
+					}
+				}
+			}
 			// the idle-client scenario: the target ends the call, the client neither sends nor closes
 			for _, fin := range []string{"E", "e9"} {
 				for k := 0; k < 3; k++ {
